@@ -44,3 +44,13 @@ package nets
 //@   modifies nothing
 //@   loop 0 invariant size == count(subnet.IPRanges, idx)
 //@   loop 0 invariant idx > 0 ==> count(subnet.IPRanges, idx) <= val(subnet.IPRanges[idx-1].Last) - val(subnet.IPRanges[0].First) + 1
+
+// structurally valid net.IPNet: 4- or 16-byte address with a mask of at least 4 bytes
+//@ func [C18] LastIPV4
+//@   requires ipNet != nil && (len(ipNet.IP) == 4 || len(ipNet.IP) == 16) && len(ipNet.Mask) >= 4
+//@ func [C18] FirstAndLastIP
+//@   requires ipNet != nil && (len(ipNet.IP) == 4 || len(ipNet.IP) == 16) && len(ipNet.Mask) >= 4
+//@ func [C20,C18] ParseIPRange
+//@   ensures [C20:parsed-range-wellformed] result != nil ==> wfRange(*result)
+//@   ensures result == nil || fresh(result)
+//@   modifies fresh IPRange.*, fresh elemsof(byte), fresh elemsof(string)
